@@ -38,10 +38,62 @@ def one_event(P, n, limit, src):
             "accepted": ab.words(acc or []), "exc": exc, "src": dict(src, n=n, limit=limit)}
 
 
+def conf(c):
+    return [ab.enc(c.q), [ab.enc(x) for x in c.stack]]
+
+
+def pc_trace(P, start, limit, src):
+    """one call of pda_epsilon_closure with its pops reported by the hooks (validated by TLC as a behaviour of
+    the PdaRun model's Pop action)"""
+    from gambatools import _verif
+    from gambatools.pda_algorithms import pda_epsilon_closure
+    from gambatools.global_settings import GambaTools
+    default = GambaTools.pda_epsilon_closure_max_iterations
+    GambaTools.pda_epsilon_closure_max_iterations = limit
+    _verif.take()
+    _verif.DETAIL = True
+    try:
+        r, exc = guarded(lambda: pda_epsilon_closure(P, start), 60)
+    finally:
+        _verif.DETAIL = False
+        GambaTools.pda_epsilon_closure_max_iterations = default
+    evs = _verif.take()
+    if exc != "none":
+        return None, None
+    st = [t for t in evs if t["ev"] == "pc.start"]
+    pops = [t for t in evs if t["ev"] == "pc.pop"]
+
+    def cf(x):
+        return [ab.enc(x[0]), [ab.enc(y) for y in x[1]]]
+    ev = {"op": "pc_trace", "pda": ab.pda(P), "limit": limit,
+          "start": [cf(x) for x in st[0]["start"]] if st else [],
+          "pops": [{"src": cf(t["src"]), "nresult": t["nresult"], "todo": [cf(x) for x in t["todo"]]} for t in pops],
+          "res": [conf(c) for c in r], "src": dict(src, limit=limit, pc=1)}
+    return ev, r
+
+
+def pc_events(P, src, rng, limit=None):
+    from gambatools.pda_algorithms import pda_do_transition, PDAState
+    limit = limit or rng.choice([1, 2, 3, 5, 8])
+    ev, r = pc_trace(P, [PDAState(P.q0, [])], limit, src)
+    if ev is None:
+        return
+    yield ev
+    # the closure of what one input symbol leads to (several start configurations)
+    for a in sorted(P.Sigma)[:1]:
+        nxt = pda_do_transition(P, a, r)
+        if 0 < len(nxt) <= 6:
+            ev2, _ = pc_trace(P, sorted(nxt), limit, dict(src, after=a))
+            if ev2 is not None and len(ev2["pops"]) <= 8:
+                yield ev2
+
+
 def events(src, n, rng, limits=None):
     P = pdasrc.build(src)
     for limit in (limits or rng.sample(LIMITS, 2)):
         yield one_event(P, n, limit, src)
+    if len(P.Q) <= 3:
+        yield from pc_events(P, src, rng)
     # history: the same object is changed in place and asked again
     keys = [k for k, v in P.delta.items() if v]
     if keys and "mut" not in src:
@@ -52,6 +104,10 @@ def events(src, n, rng, limits=None):
 
 
 def drive(task):
+    if task["kind"] == "sched_replay":
+        from .. import schedule_replay
+        yield from schedule_replay.drive_file(task["path"], task["lo"], task["hi"], task.get("stride", 1))
+        return
     rng = random.Random(task.get("seed", 0) + task.get("part", 0))
     if task["kind"] == "small":
         for i, src in enumerate(pdasrc.small_pdas(3)):
@@ -70,7 +126,15 @@ def drive(task):
 
 
 def redrive(src):
+    if src.get("kind") == "gen_line":
+        from .. import schedule_replay
+        yield from schedule_replay.replay_line(src["line"])
+        return
     P = pdasrc.build(src)
+    if src.get("pc"):
+        yield from pc_events(P, {k: v for k, v in src.items() if k not in ("pc", "after", "limit")},
+                             random.Random(0), src.get("limit"))
+        return
     if "mut" in src:
         k, x = src["mut"]
         P.delta[tuple(k)].discard(tuple(x))
@@ -84,16 +148,30 @@ RULE = ("PDAs on 2 states / input {a} / stack {X} with <= 3 of the 32 possible m
         "hand-written PDAs (a^n b^n, acceptance with non-empty stack, stack-growing epsilon cycle, replace moves, "
         "markers as stack symbols), random PDAs with 1-3 states, binary-tree PDAs whose initial closure has 2^(d+1)-1 "
         "configurations; per PDA the verdicts for all words <= n under two of the limits {1,2,3,5,10,50} (trees: "
-        "500-5000), then again after a transition was removed in place; non-trivial = PDA has an epsilon move; "
+        "500-5000), then again after a transition was removed in place; for PDAs with <= 3 states one or two "
+        "closure computations with every pop reported by the hooks, validated as behaviours of PdaRun's Pop action; "
+        "every pop order of the closure on all PDAs with <= 3 moves x limits 1-4 (Schedules.tla, Algo pc) forced "
+        "onto pda_epsilon_closure and pda_accepts_word; non-trivial = PDA has an epsilon move; "
         "distinct = distinct (PDA, limit)")
 
 
 def nontrivial(e):
+    if e["op"] == "sched_replay":
+        return True
+    if e["op"] == "pc_trace":
+        return len(e["pops"]) >= 2
     return any(t[1] == e["pda"]["eps"] for t in e["pda"]["T"])
 
 
 def check(tier, seed):
-    return base.standard_check(PID, tier, seed, tasks(tier, seed), MODELS[tier], RULE, nontrivial,
+    from .. import schedule_replay
+    info = {}
+    ts = tasks(tier, seed) + schedule_replay.gen_tasks(PID, "pc", tier, info, quick_stride=3)
+
+    def extra(res, done):
+        res.notes["model_schedules_forced_onto_impl"] = info
+
+    return base.standard_check(PID, tier, seed, ts, MODELS[tier], RULE, nontrivial, extra=extra,
                                assumptions=["words <= 3 (4)", "completeness is judged for a word when every exact "
                                             "closure on its way has at most `limit` configurations"])
 
